@@ -6,37 +6,37 @@ import os
 
 HERE = os.path.dirname(os.path.dirname(os.path.abspath(__file__)))
 
-CLAIMS = {
-    # id: (technique, level text, level note, design ref)
-    'C14': ('AST table extraction + constant folding + comparison with the MessagePack spec table',
-            'Static table agreement: writer rows (exact integer partition by breakpoint decomposition), '
-            'reader rows for all 256 first bytes and the dispatch table are compared with the '
-            'specification table; exhaustive over the finite tables. Decides the format-boundary and '
-            'truncation-discipline clauses of the round-trip property, not value equality.',
-            'Trusted: struct format semantics (CPython), the transcription of the spec table in '
-            'sa/msgpack_spec.py. Not decided: float bit-exactness, UTF-8 handling, nesting depth, map key '
-            'conversion, reserved (negative) ext types.',
-            'DESIGN.md §4 C14'),
-    'C15': ('AST signature/arity agreement + handler containment + must-pass-through path rules',
-            'Static protocol skeleton: stub/handler/API parameter wiring by position, exception '
-            'containment in Server.process, exactly one reply attempt per request with non-escaping '
-            'handlers, send/receive pairing in the client. Necessary conditions of transparency and '
-            'fault isolation; payload equality is not decided.',
-            'Trusted: multiprocessing.connection message framing. Not decided: equality of remote and '
-            'in-process results, ordering under concurrent callers, multi-MiB payloads (C14 covers the '
-            'length formats).',
-            'DESIGN.md §4 C15'),
-    'C16': ('static lock-set (Eraser-style) + check-then-act + dominator/who-may-call rules + resolved '
-            'call-arity check',
-            'Static lock-set over Environment fields per thread context, check-then-act rule on racy '
-            'fields, single-launch dominator rule (Popen only in _run, every route locked and guarded), '
-            'repository-wide call arity, close typestate and server-loop exit rules. Necessary '
-            'conditions for "exactly one server" and "close ends it"; real-process behaviour is not '
-            'decided.',
-            'Trusted: threading.Lock/Thread.join semantics. The check-then-act rule treats an own write '
-            'between two reads as re-establishing the value. Not decided: deadlock freedom with real '
-            'processes, OS-level Listener/Client behaviour, launch time-outs.',
-            'DESIGN.md §4 C16'),
+NOTES = {
+    'C01': 'Trusted: ast grammar docs, T1/T2 tables in sa/pyref.py, frozen helper summaries (re-validated each run). Depth-1 '
+           'templates (opaque children create no regions; continuity rule covers region-creating children). Not decided: '
+           'value-level lookup for arbitrary programs, star-import resolution, builtins, anything depending on Project.',
+    'C02': 'Trusted: reference CFG templates T3 (C02 domain). Not decided: position cut of names_at for arbitrary layouts, '
+           'inter-scope reads, evaluation in declarations() beyond the alternatives list.',
+    'C03': 'Trusted: reference CFG templates T3. Not decided: precision of get_expr_end (last visited vs textually last node), '
+           'escapes (return/raise do not end a region in supp: recorded in DESIGN.md as a finding this family cannot key).',
+    'C04': 'Trusted: typed call graph from the repository\'s # type: comments. Cycles through EvalCtx.evaluate are listed, not '
+           'armed. Not decided: equality of answers under concrete query orders.',
+    'C05': 'Trusted: T1 table. Not decided: agreement with symtable on real files; free-variable resolution through several '
+           'levels beyond the modelled chain.',
+    'C06': 'Not decided: that evaluation reaches the right class for an arbitrary expression, import forms, descriptors beyond '
+           'the two recognised decorator kinds.',
+    'C07': 'Not decided: agreement with importlib on concrete trees, relative-name arithmetic, list_packages contents.',
+    'C08': 'Trusted: frozen table of raising stdlib calls. Not decided: exceptions raised by stdlib calls outside the table, '
+           'stack depth.',
+    'C09': 'Not decided: equality of answers after a concrete edit history; mtime granularity; deletion/shadowing.',
+    'C10': 'Interpretation: "parameter of a method" = parameter of a def or lambda whose enclosing scope is a class body. Not '
+           'decided: whether `used` is set for the right bindings (C02), the "never read in the file" premise.',
+    'C11': 'Trusted: CPython node positions. Import aliases, def and class names are positioned by text search: NOT decided.',
+    'C12': 'Not decided: mark transparency (a relation between two analyses of every file and position).',
+    'C13': 'Trusted: token-start order is layout invariant. Not decided: equality of diagnostics between concrete layouts.',
+    'C14': 'Trusted: struct format semantics (CPython), the transcription of the spec table in sa/msgpack_spec.py. Not decided: '
+           'float bit-exactness, UTF-8 handling, nesting depth, map key conversion, reserved (negative) ext types.',
+    'C15': 'Trusted: multiprocessing.connection message framing. Not decided: equality of remote and in-process results, '
+           'ordering under concurrent callers, multi-MiB payloads (C14 covers the length formats).',
+    'C16': 'Trusted: threading.Lock/Thread.join semantics; an own write between two reads re-establishes the value. Not '
+           'decided: deadlock freedom with real processes, OS-level Listener/Client behaviour, launch time-outs.',
+    'C17': 'Trusted: lists built by ast visitors / position-ordered insertion are deterministic; reasoned table of hash-ordered '
+           'dicts. Not decided: equality of the outputs of two concrete processes.',
 }
 
 NOT_YET = {}
@@ -48,8 +48,12 @@ def main():
     na = []
     for p in props:
         pid = p['id']
-        if pid in CLAIMS and os.path.exists(os.path.join(HERE, 'sa', 'props', pid.lower() + '.py')):
-            tech, text, note, ref = CLAIMS[pid]
+        modpath = os.path.join(HERE, 'sa', 'props', pid.lower() + '.py')
+        if os.path.exists(modpath):
+            import importlib, sys
+            sys.path.insert(0, HERE)
+            mod = importlib.import_module('sa.props.' + pid.lower())
+            tech, text, note, ref = mod.TECHNIQUE, mod.EXPLANATION, NOTES[pid], 'DESIGN.md §4 ' + pid
             checks.append({
                 'property_id': pid,
                 'quick_cmd': './check %s --tier quick' % pid,
